@@ -70,7 +70,11 @@ def free_of(pattern):
 class WK:
     """Bound to one loaded library instance."""
 
-    def __init__(self, lib, guard=16):
+    def __init__(self, lib, guard=None):
+        import os
+        if guard is None:
+            # sanitizer builds get exact-size arrays (ASan red zones are the guard); otherwise canary slots
+            guard = 0 if os.environ.get("VERIF_SAN") == "1" else 16
         self.lib = lib
         d = lib.dll
         self.d = d
